@@ -59,12 +59,14 @@ def one_trace(tid, n, m, a, b, weighted, n_jobs, seed, probes):
     ev.append(dict(a="fitted", m=len(model.estimators_)))
     t["returns_self"] = ret is model
     t["untouched"] = bool(numpy.array_equal(X, X0) and numpy.array_equal(ya, y0))
+    raw = []
     for x, dt in zip(probes, (numpy.float64, numpy.int64, numpy.float32, numpy.int32)):
         Xq = numpy.array([[x, 0]], dtype=dt)        # the query's dtype is the caller's business
-        al = model.predict_all(Xq)[0] - 0.5
-        pm = model.predict(Xq)[0] * m - 0.5 * m
-        ps = model.predict_sorted(Xq)[0] - 0.5
-        ok = lambda v: abs(v - round(v)) < 1e-6
+        # the caller keeps every result while it goes on querying: they are read only after the last call
+        raw.append((x, model.predict_all(Xq), model.predict(Xq), model.predict_sorted(Xq)))
+    ok = lambda v: abs(v - round(v)) < 1e-6
+    for x, al, pm, ps in raw:
+        al, pm, ps = al[0] - 0.5, pm[0] * m - 0.5 * m, ps[0] - 0.5
         ev.append(dict(a="predict", x=x, all=[int(round(v)) if ok(v) else -999999 for v in al],
                        mean_m=int(round(pm)) if ok(pm) else -999999,
                        sorted=[int(round(v)) if ok(v) else -999999 for v in ps]))
